@@ -107,10 +107,8 @@ func Judge(res *srvh.Result, exps []wire.Expect) (kind, msg string) {
 			served = served[:i+1]
 			break
 		}
-		if e.InvalidName {
-			if len(res.Seen) == i {
-				rejectAt = i
-			}
+		if e.InvalidName && len(res.Seen) == i {
+			rejectAt = i
 			break
 		}
 	}
